@@ -146,6 +146,45 @@ theorem C18.csv_roundtrip_partial
     rw [hq, hd]
     exact csvGo_doc .rfc _ rows hne (fun _ _ s _ => readsBack_rfc _ quotedRfc_hq quotedRfc_ho s)
 
+/-- `join()` (the note column of the csv report): the result holds no newline —
+    a record stays on one line —, a text without newlines is copied unchanged
+    (every character of every script), and for a text without backslashes the
+    reader that turns `\\n` back into a newline recovers it exactly. -/
+theorem C18.join_faithful (s : Str) :
+    '\n' ∉ joinLines s ∧
+    ((∀ c ∈ s, c ≠ '\n') → joinLines s = s) ∧
+    (noBackslash s = true → unjoinLines false (joinLines s) = s) := by
+  refine ⟨?_, ?_, ?_⟩
+  · induction s with
+    | nil => simp [joinLines, escape]
+    | cons c s ih =>
+      rw [joinLines_cons]
+      by_cases h : c = '\n'
+      · simp [h, ih]
+      · simp only [h, ite_false, List.cons_append, List.nil_append, List.mem_cons, not_or]
+        exact ⟨fun e => h e.symm, ih⟩
+  · induction s with
+    | nil => intro _; simp [joinLines, escape]
+    | cons c s ih =>
+      intro h
+      rw [joinLines_cons]
+      have hc : c ≠ '\n' := h c (by simp)
+      simp [hc, ih (fun x hx => h x (by simp [hx]))]
+  · induction s with
+    | nil => intro _; simp [joinLines, escape, unjoinLines]
+    | cons c s ih =>
+      intro h
+      simp only [noBackslash, List.all_cons, Bool.and_eq_true, bne_iff_ne, ne_eq] at h
+      have ih' := ih (by simpa [noBackslash] using h.2)
+      rw [joinLines_cons]
+      by_cases hn : c = '\n'
+      · subst hn; simp [unjoinLines, ih']
+      · simp [hn, unjoinLines, h.1, ih']
+
+/-- the note column of the shipped format is the only one that goes through `join()` -/
+theorem C18.csv_join_columns :
+    columnJoins = [false, false, false, false, false, false, false, true] := by decide +kernel
+
 /-! ### XML -/
 
 /-- The text the XML writer produces for any string is read back as that
@@ -219,6 +258,8 @@ example : csvRow ["a\"b".toList, "x,y".toList] = "\"a\\\"b\",\"x,y\"\n".toList :
 example : csvReadRfc (csvDocRfc [["a\\".toList, "q\"\n,".toList], ["".toList]])
     = some [["a\\".toList, "q\"\n,".toList], ["".toList]] := by decide
 example : csvReadBackslash (csvDoc [["say \"hi\", ok".toList]]) = some [["say \"hi\", ok".toList]] := by decide
+example : ledgerCsvRecord ["2020/01/02".toList, [], "p".toList, "A".toList, "EUR".toList, "5".toList, [], " crème\n brûlée".toList]
+    = (ledgerCsvRow ["2020/01/02".toList, [], "p".toList, "A".toList, "EUR".toList, "5".toList, [], " crème\\n brûlée".toList]) := by decide +kernel
 example : xmlEscape "a<b & \"c\"".toList = "a&lt;b &amp; &quot;c&quot;".toList := by decide
 example : xmlEscape "  ".toList = "&#32; ".toList := by decide
 example : emacsStr "a\\\"(b".toList = "\"a\\\\\\\"(b\"".toList := by decide
